@@ -245,7 +245,11 @@ the fragments): the backbone itself is the variant, so the empty combination of 
 counts; `deny` = the products of the unmodified donor / host transcript. -/
 def callBackbone (g : Cfg) (t : TxIn) (vs : List Var) (deny : List Pep) : List Pep :=
   (([] :: haplotypes t vs).flatMap fun h =>
-      peptidesOf g t (applyHap t.seq h) (secAfter t.sec h) t.endNF).filter fun p =>
+      -- the start of the acceptor part moves with the indels of the combination that lie before it
+      let lim := t.orfLimit.map fun l =>
+        ((l : Int) + h.foldl (fun acc v =>
+          if v.stop ≤ l then acc + (v.alt.length : Int) - (v.ref.length : Int) else acc) 0).toNat
+      peptidesOf g { t with orfLimit := lim } (applyHap t.seq h) (secAfter t.sec h) t.endNF).filter fun p =>
     !deny.contains p && !g.canonical.contains p
 
 /-- S: the set for a circRNA: `circSeq` = the fragments concatenated in transcript order; a
@@ -253,9 +257,13 @@ combination of the small records inside the fragments is applied to the ONE mole
 is then read around the circle (four copies suffice for peptides of bounded length); every
 ATG opens a frame; only peptides closed by a stop codon count. -/
 def callCirc (g : Cfg) (circSeq : List Char) (vs : List Var) (deny : List Pep) : List Pep :=
-  let t : TxIn := { seq := circSeq, coding := false, orfStart := 0, orfEnd := 0, startNF := false,
-                    endNF := true, sec := [] }
-  (([] :: haplotypes t vs).flatMap fun h =>
+  -- which records are usable: a circle has no 3' end, so the mRNA_end_NF rule on the last
+  -- codon does not apply (`endNF := false` here) …
+  let tU : TxIn := { seq := circSeq, coding := false, orfStart := 0, orfEnd := 0, startNF := false,
+                     endNF := false, sec := [] }
+  -- … while the unrolled copies do end openly: products reaching that end do not count
+  let t : TxIn := { tU with endNF := true }
+  (([] :: haplotypes tU vs).flatMap fun h =>
       let m := applyHap circSeq h
       peptidesOf { g with sect := false } t (m ++ m ++ m ++ m) [] true).filter fun p =>
     !deny.contains p && !g.canonical.contains p
@@ -264,9 +272,10 @@ def callCirc (g : Cfg) (circSeq : List Char) (vs : List Var) (deny : List Pep) :
 the (three) passes around the circle may carry its own combination of the records, which is
 what a graph with independent bubbles per copy yields -/
 def callCircMixed (g : Cfg) (circSeq : List Char) (vs : List Var) (deny : List Pep) : List Pep :=
-  let t : TxIn := { seq := circSeq, coding := false, orfStart := 0, orfEnd := 0, startNF := false,
-                    endNF := true, sec := [] }
-  let copies := ([] :: haplotypes t vs).map (applyHap circSeq)
+  let tU : TxIn := { seq := circSeq, coding := false, orfStart := 0, orfEnd := 0, startNF := false,
+                     endNF := false, sec := [] }
+  let t : TxIn := { tU with endNF := true }
+  let copies := ([] :: haplotypes tU vs).map (applyHap circSeq)
   (copies.flatMap fun a => copies.flatMap fun b => copies.flatMap fun c =>
       peptidesOf { g with sect := false } t (a ++ b ++ c) [] true).filter fun p =>
     !deny.contains p && !g.canonical.contains p
